@@ -86,6 +86,7 @@ func run(c *fw.Ctx) {
 	c.Cases("start", c.N(16, 64), func(i int, r *fw.Rand) { runStart(c, i, r) })
 	c.Cases("fault", c.N(60, 900), func(i int, r *fw.Rand) { runFault(c, i, r) })
 	c.Cases("received", c.N(120, 2400), func(i int, r *fw.Rand) { runReceived(c, i, r) })
+	c.Cases("cancel0", c.N(24, 400), func(i int, r *fw.Rand) { runCancel0(c, i, r) })
 	c.Cases("loop", c.N(2, 8), func(i int, r *fw.Rand) { runLoop(c, i, r) })
 }
 
